@@ -18,7 +18,7 @@ ASSUMPTIONS = [
     "refusal is observed at main(): ValueError, no write-mode open, unchanged disk snapshot; argparse type errors (non-numeric text) are outside the documented ranges and not exercised",
 ]
 RULE = ("run = 4-30 ops from {gen_rnd_board through the API in a long-lived process, other tenants seeding/drawing from the global "
-        "PRNG, generator CLI after a restart with seeded OS entropy, the same parameters again later, CLI with one out-of-range "
+        "PRNG, generator CLI after a restart with seeded OS entropy, the same parameters again later (also after a generation that was failed by an injected OSError or Ctrl-C, and from inside one long-lived driver process), a host process logging at INFO/DEBUG, CLI with one out-of-range "
         "parameter (every boundary of the eight checks), restart}; non-trivial = the same parameter set generated at least twice "
         "with tenant activity or a restart in between, or a refusal checked against the disk; distinct = hash of (parameter sets, op kinds)")
 
@@ -80,12 +80,24 @@ def gen(rng, tier, ctx):
                 op["env"] = {"pollute": rng.randint(0, 2 ** 32)}
             if rng.random() < 0.1:
                 op.setdefault("env", {})["depth"] = rng.choice([100, 400])
+            if rng.random() < 0.15:
+                op.setdefault("env", {})["log"] = rng.choice(["i", "d", "d"])    # host process logs at INFO/DEBUG
         elif r < 0.55:
             op = {"op": "tenant", "what": rng.choice(["seed", "draw", "seed_none_like", "shuffle"]),
                   "arg": rng.randint(0, 2 ** 32), "n": rng.randint(1, 50)}
         elif r < 0.75:
             small = p if p["width"] * p["length"] <= 100 else dict(p, width=rng.randint(1, 6), length=rng.randint(1, 6))
             op = {"op": "gen_cli", "params": small, "entropy": rng.randint(0, 2 ** 32)}
+            if rng.random() < 0.25:
+                op["same_process"] = True           # main() called again from a long-lived driver
+            if rng.random() < 0.15:
+                op["env"] = {"log": rng.choice(["i", "d"])}
+            f = rng.random()
+            if f < 0.12:
+                op["fs_faults"] = [{"on": rng.choice(["write", "write", "close"]), "mode": "w", "nth": rng.randint(1, 12),
+                                    "errno": rng.choice(["ENOSPC", "EIO"]), "partial": rng.choice([0, 0.5])}]
+            elif f < 0.2:
+                op["interrupt"] = {"frac": rng.random()}
         elif r < 0.93:
             key = rng.choice(["seed", "width", "length", "max_reward", "rb", "lb", "tb", "lt"])
             vals = BAD["prob"] if key in ("rb", "lb", "tb", "lt") else BAD[key]
@@ -201,9 +213,25 @@ def execute(spec, w, ctx):
                         n = p["width"] * p["length"]
                         agg.append([p["seed"], p["lt"], n, sum(sum(r_) for r_ in lo)])
         elif kind == "gen_cli":
-            out, before, after, changed, wopens = genops.run_gen(w, op, common.env_cfg(op))
+            cfg = common.env_cfg(op)
+            if op.get("fs_faults"):
+                cfg["fs_faults"] = op["fs_faults"]
+            if op.get("interrupt"):
+                # measure a clean execution in fine steps (checked below like any other), then interrupt one
+                out0, b0, a0, ch0, wo0 = genops.run_gen(w, op, dict(cfg, fine=True, fs_faults=None))
+                if out0["status"] == "ok":
+                    opens = [e[4] for e in out0["fs_events"] if genops.is_write_open(e)]
+                    lo = opens[0] if opens else 1
+                    cfg["interrupt"] = {"at": lo + int(op["interrupt"]["frac"] * max(0, out0["steps"] - lo))}
+            out, before, after, changed, wopens = genops.run_gen(w, op, cfg)
+            faulted = bool(out["fs_fired"]) or out["status"] == "interrupt"
             r = genops.ref_gen(ctx, op)
-            events.append([i_op, "gen_cli", out["status"], changed])
+            events.append([i_op, "gen_cli", out["status"], changed, out["fs_fired"]])
+            if faulted and out["status"] != "ok":
+                # a run that was made to fail may fail; the same command must still reproduce afterwards
+                out, before, after, changed, wopens = genops.run_gen(w, op, common.env_cfg(op))
+                events.append([i_op, "gen_cli-rerun", out["status"], changed])
+                w.probe("rerun-after-failed-generation")
             if out["status"] != "ok":
                 v = viol("I15.1", i_op, "`roberta_generator.py %s` (accepted parameters) did not finish: %s" % (
                     " ".join(ops.gen_argv(p)[1:]), genops.show(out)), "generator-crashed", etype=out.get("etype"))
